@@ -1085,11 +1085,15 @@ impl<'l> CelCompiler<'l> {
                         // Arguments are evaluated backwards so they get popped off the stack in order
                         for (a, ast) in args.into_iter().rev() {
                             args_ast.push(ast);
-                            args_node =
-                                args_node.append_result(CompiledProg::with_code_points(vec![
-                                    ByteCode::Push(a.into_unresolved_bytecode().resolve().into())
-                                        .into(),
-                                ]))
+                            // the argument travels as a code block; the
+                            // identifiers it reads stay part of the program's details
+                            let (a_node, a_details) = a.into_parts();
+                            let mut a_block = CompiledProg::with_code_points(vec![ByteCode::Push(
+                                a_node.into_bytecode().resolve().into(),
+                            )
+                            .into()]);
+                            a_block.details = a_details;
+                            args_node = args_node.append_result(a_block)
                         }
 
                         member_prime_node = args_node
@@ -1393,6 +1397,8 @@ impl<'l> CelCompiler<'l> {
                 loc,
             }) => {
                 let mut bytecode = Vec::<PreResolvedCodePoint>::new();
+                // identifiers read by the embedded expressions
+                let mut fstring_details = crate::program::ProgramDetails::new();
 
                 for segment in segments.iter() {
                     match segment {
@@ -1405,6 +1411,7 @@ impl<'l> CelCompiler<'l> {
                             comp.nesting_depth = self.nesting_depth;
 
                             let (e, _) = comp.parse_expression()?;
+                            fstring_details.union_from(e.details().clone());
 
                             bytecode.push(
                                 ByteCode::Push(CelValue::ByteCode(
@@ -1421,8 +1428,11 @@ impl<'l> CelCompiler<'l> {
                 // Reverse it so its evaluated in order on the stack
                 bytecode.push(ByteCode::FmtString(segments.len() as u32).into());
 
+                let mut fstring_prog = CompiledProg::with_code_points(bytecode);
+                fstring_prog.details = fstring_details;
+
                 Ok((
-                    CompiledProg::with_code_points(bytecode),
+                    fstring_prog,
                     AstNode::new(
                         Primary::Literal(LiteralsAndKeywords::FStringList(segments.clone())),
                         loc,
@@ -1521,12 +1531,14 @@ impl<'l> CelCompiler<'l> {
     fn check_for_const(&self, member_prime_node: CompiledProg) -> CompiledProg {
         let mut i = Interpreter::empty();
         i.add_bindings(&self.bindings);
-        let bc = member_prime_node.into_unresolved_bytecode().resolve();
+        // folded or not, the program still reports the identifiers the call reads
+        let (node, details) = member_prime_node.into_parts();
+        let bc = node.into_bytecode().resolve();
 
         // The value of a call that reads the clock belongs to the moment the
         // program runs, not to the moment it was compiled.
         if reads_clock(&bc) {
-            return CompiledProg::with_bytecode(bc);
+            return CompiledProg::new(NodeValue::Bytecode(bc.into()), details);
         }
 
         let r = i.run_raw(&bc, true);
@@ -1535,8 +1547,8 @@ impl<'l> CelCompiler<'l> {
             // A collection holding an error is not a result of the call but
             // of something missing at compile time (an unbound variable read
             // inside a macro body for instance): leave the call to run time.
-            Ok(v) if !contains_error(&v) => CompiledProg::with_const(v),
-            _ => CompiledProg::with_bytecode(bc),
+            Ok(v) if !contains_error(&v) => CompiledProg::new(NodeValue::ConstExpr(v), details),
+            _ => CompiledProg::new(NodeValue::Bytecode(bc.into()), details),
         }
     }
 }
